@@ -27,8 +27,11 @@ def _entries(v):
     return [(None, v)]
 
 
-def h_sim_equal(ctx, skeleton, script, date, n=3, args=None):
+def h_sim_equal(ctx, skeleton, script, date, n=3, args=None, tz=None):
     spec = M.SKELETONS[skeleton](n, **(args or {}))
+    if tz:
+        for c in spec["countries"].values():
+            c["tz"] = tz
     sym = traffic_syms(spec)
     sym.update(collect_slots(spec, script))
     env0 = M.Env(ctx, symbolic=sym)
@@ -120,6 +123,11 @@ def plan(tier, seed):
         p.append(("sim_equal", dict(skeleton="T9", script=sc, date="first", n=2)))
     for sc in SCRIPTS_T5:
         p.append(("sim_equal", dict(skeleton="T5", script=sc, date="first", n=2)))
+    # usage pattern itself in the recomputation chain (link/list changes on it), zones east and west of UTC
+    for sc in (SCRIPTS_T9[3], SCRIPTS_T9[6], SCRIPTS_T9[1]):
+        p.append(("sim_equal", dict(skeleton="T9", script=sc, date="interior", n=3)))
+        p.append(("sim_equal", dict(skeleton="T9", script=sc, date="first", n=2, tz="America/New_York")))
+        p.append(("sim_equal", dict(skeleton="T9", script=sc, date="last", n=3, tz="Asia/Kolkata")))
     if tier == "thorough":
         for sc in SCRIPTS_T9:
             for d in ("interior", "last"):
